@@ -244,7 +244,7 @@ def enum_lifetime(meta, tier, sel):
     quick = tier == 'quick'
     menu = [(1, 1), (0, 1), (2, 2), (1, INF)] if quick else [(1, 1), (0, 1), (2, 2), (1, INF), (2, 3), (0, 0)]
     slen = 4 if quick else 5
-    alpha = ['rel_a', 'rel_b', 'rmobj', 'mv', 'hit_a', 'hit_b', 'miss']
+    alpha = ['rel_a', 'relx_a', 'rel_b', 'rmobj', 'mv', 'hit_a', 'hit_b', 'miss']
     for ba in menu:
         for bb in menu:
             for st in strings(alpha, slen, exact=True):
@@ -260,9 +260,9 @@ def enum_lifetime(meta, tier, sel):
                 cur, objs = o, [o]
                 ok = True
                 for sym in st:
-                    if sym == 'rel_a':
+                    if sym in ('rel_a', 'relx_a'):
                         if a not in live: ok = False; break
-                        ops.append(('rmexp', a)); live.discard(a)
+                        ops.append(('rmexp' if sym == 'rel_a' else 'rmexpx', a)); live.discard(a)
                     elif sym == 'rel_b':
                         if b not in live: ok = False; break
                         ops.append(('rmexp', b)); live.discard(b)
